@@ -61,6 +61,10 @@ ROWS = {
    technique='property-based testing: generated federation document sets (inline / file / fake-HTTP remote, nested groups, duplicates, expiry, SAML1-only roles, signed valid/tampered/wrong-key) x all accessors, oracle = reference model of the rendered specs; generated config -> metadata -> store round trip',
    text='Every service helper x binding, certs x descriptor x use, entity categories, attribute requirements, with_descriptor and keys are compared with what the valid, unexpired, correctly signed documents declare (any single defining source for duplicated ids; unknown vs unsupported distinguished); generated SP/IdP configurations must load back to the same endpoints and certificates.',
    note=TOOL_NOTE + '; frozen clock; metadata rendered by harness templates.'),
+ 'C03': dict(level='exploration', design='3/C03',
+   technique='property-based testing: generated federations x issuer / signing key / KeyInfo material / signature level pairings under both settings, several messages per SP instance; oracle = reference model of the metadata',
+   text='A message is accepted only if the key that actually signed it is a signing (or use-less) metadata key of the claimed Issuer, or - setting off, no such key in metadata - the embedded certificate is the signer\'s; embedded certificates, RSA key values, other entities\' keys, encryption-only keys and unknown issuers must not authenticate.',
+   note=TOOL_NOTE + ' including its KeyInfo-first key search; documents built and signed by the harness; frozen clock.'),
 }
 NOT_YET = {}
 def main():
